@@ -1,6 +1,7 @@
 package main
 
 import (
+	"golang.org/x/tools/go/ssa"
 	"fmt"
 	"os"
 	"strings"
@@ -40,5 +41,23 @@ func init() {
 				fmt.Println("   param", p.Name(), p.Type(), isKeyMaterialPtr(c, p.Type()))
 			}
 		}
+	})
+}
+
+func init() {
+	if os.Getenv("MPS_DBG3") == "" {
+		return
+	}
+	register("DBG3", propMeta{}, func(c *Ctx, r *Run) {
+		ds := c.LookupFunc("internal/bip32", "DeriveScalar")
+		d := newDep(ds, nil)
+		allInstrs(ds, func(in ssa.Instruction) {
+			if call, ok := in.(*ssa.Call); ok && call.Call.IsInvoke() {
+				fmt.Println("INVOKE", call.Call.Method.Name(), len(call.Call.Args))
+				for _, a := range call.Call.Args {
+					fmt.Println("    arg", d.labels(a))
+				}
+			}
+		})
 	})
 }
